@@ -9,6 +9,9 @@ CLAIMED = {
  'C01': dict(cat='proof', tech='Coq proof of role theorems on an executable model + correspondence by replay of the real handlers',
    text='role theorems for every payload/window/arrival time (segmentation inverse, responder RTS+DT phase by induction over packets, originator window burst, delivery rule) on Model21, whose expression-level parts are regenerated from /repo and whose handlers are replayed against the real code under virtual time (incl. zero-latency re-entrancy); oracle = exactly-once delivery on 2-4 real stacks',
    note='partial: BAM role theorems, closed loop and any-schedule network theorems (T01.5-T01.10) not proved - that quantifier is covered by the correspondence/oracle runs (testing); assumptions A1-A6 (DESIGN.md section 3)'),
+ 'C12': dict(cat='proof', tech='Coq proof on the ECU timer model + correspondence by replay of the real handlers + timing oracle',
+   text='theorems on the model of the (repaired) timer loop: removal is complete for any number of duplicates, re-arming is drift-free for every deadline/period/clock reading, a registration is never invoked early, each due registration of a pass snapshot is invoked once; the model is replayed against the real ECU (incl. operations from inside callbacks); oracle checks firing instants against t_reg + k*delta within the scheduling latency',
+   note='upper bounds are relative to the jitter J of assumption A3; thread races below handler granularity are not exhibited'),
 }
 props = [json.loads(l) for l in open(os.path.join(ROOT, 'properties.jsonl'))]
 old = {}
